@@ -21,8 +21,11 @@ claim("C08",
             "transaction. Each selected note must belong to the account, be mined on the current scanned branch, unspent (mined, orphaned-unexpired or pending "
             "spender), deep enough for the policy, not locked by a non-admitted owner, in a permitted pool, witnessable at the step anchor with a witness hashing "
             "to the true root, selected once; every step must balance exactly; a proposal never exceeds all unspent mined value; get_locked_outputs equals the "
-            "model lock table after every op."),
-      note="Not reached: transparent inputs / propose_shielding (the chain model has no transparent outputs); pending transactions with Orchard/Ironwood inputs (need real proving keys). Liveness (a coverable request yields a proposal) is not in the statement and only counted.")
+            "model lock table after every op. A second sub-check does the same for transparent coins: UTXOs received mined/unmined/coinbase at own, other-account "
+            "and foreign addresses, spent by mined, mempool and stored transactions, un-mined by reorganisations, then propose_shielding / propose_shielding_coinbase "
+            "/ transfers with a transparent source under generated thresholds, address sets, coinbase filters and policies; every selected coin is checked for "
+            "ownership, address scope, spender, confirmations, coinbase maturity, locks and single selection."),
+      note="Not reached: P2SH/imported transparent addresses, transparent change, execution of TEX two-step proposals, pending transactions with Orchard/Ironwood change (need real proving keys). Liveness (a coverable request yields a proposal) is not in the statement and only counted.")
 
 claim("C09",
       technique="exhaustive boundary-lattice enumeration + seeded proptest pairs against an exact i128 reference",
@@ -37,7 +40,8 @@ HOOKS["source_commits"] = []
 claim("C01",
       technique="model-based stateful proptest: generated wallet histories vs an independent ledger model + differential against a fresh linear wallet",
       text=("Generated histories (blocks with receipts/spends in Sapling/Orchard/Ironwood to 1-3 accounts and foreign keys, scans of arbitrary "
-            "ranges in any order with repeats, tip updates, truncations with and without a chain reorganisation, chains > 100 blocks so the "
+            "ranges in any order with repeats, tip updates, truncate_to_height and truncate_to_chain_state with and without a chain reorganisation, wallet "
+            "transactions mined again after a reorganisation, non-empty birthday frontiers incl. shard boundaries, subtree-root sync rounds, chains > 100 blocks so the "
             "nullifier-tracking floor and pruning engage) are applied to a real SQLite wallet and to a model ledger written from the property text "
             "and the documented expiry rule. After EVERY step total+uneconomic per account and pool and all mined-note rows (txid, index, value, "
             "nullifier, position, height, scope, spent-by) must equal the model; at the end everything is scanned and compared with a fresh wallet "
@@ -46,11 +50,11 @@ claim("C01",
 
 claim("C06",
       technique="model-based stateful proptest: wallet ShardTrees vs true frontiers maintained by the chain model, after every step of generated histories",
-      text=("Same history generator as C01 (plus busy chains that exceed the 100-checkpoint budget, NU6.3 activating inside the chain, retention "
-            "intervals 1..12/144). After every step each pool's checkpoints must lie on the current branch with the chain's true position and root, "
-            "every witness produced for an unspent mined wallet note must hash to the true root at that checkpoint, the three pools must be "
+      text=("Same history generator as C01 (re-mined transactions, chain-state truncations, non-empty birthday frontiers, shard boundaries, subtree-root hand-overs; "
+            "plus busy chains that exceed the 100-checkpoint budget, NU6.3 activating inside the chain, retention intervals 1..12/144). After every step each pool's checkpoints must lie on the current branch with the chain's true position and root, "
+            "every witness produced at the position the wallet itself records for an unspent mined note must hash to the true root at that checkpoint, the three pools must be "
             "checkpointed at the same heights (above the pruning horizon) and every scanned retention boundary must have a checkpoint in every pool. "
-            "Three genuine defects are listed as known findings and excluded by exact trigger so the search continues behind them."),
+            "Six genuine defects are listed as known findings, each with a recorded history as a regression sub-check, and excluded by exact trigger so the search continues behind them."),
       note="Trusted: incrementalmerkletree::Frontier for the model's true roots; produced-but-unavailable roots/witnesses are counted, not asserted.")
 
 claim("C07",
@@ -79,7 +83,7 @@ claim("C15",
       technique="exhaustive small-domain enumeration + proptest sequences against a pointwise reference map; stateful proptest of the SQLite scan queue and client sync loop",
       text=("SpanningTree: every leaf x single insertion over 8 heights, every ordered pair over 5 heights and every triple of non-empty ranges over 3 "
             "heights (all 7 priorities, force flag, empty ranges) plus 1M random sequences must flatten to the pointwise dominance reference. "
-            "Wallet: generated histories (mining, tip updates, partial scans from either end, rewinds, far tip jumps) keep the scan_queue a sorted "
+            "Wallet: generated histories (mining, tip updates, partial scans from either end, rewinds, far tip jumps, forced rescans of 1-4 unsorted ranges at every priority) keep the scan_queue a sorted "
             "gap-free merged partition, mark exactly the scanned range, and the documented client loop terminates within a model-computed bound "
             "with everything scanned."),
       note="Trusted: TestState fake chain; update_chain_tip's choice of priority is not modelled. The reorg tree conflict (C06 root cause) is a known finding.")
@@ -133,7 +137,10 @@ claim("C02", category="fault_enumeration",
             "quick run). Each faulted run must fail leaving every table identical to the pre-state (or succeed with exactly the reference state), a retry must "
             "reproduce the reference state, a vetoed COMMIT must leave the pre-state, a byte copy of the database taken inside the commit hook must recover to the "
             "pre-state, a second connection reading inside one transaction just before the fault must see the pre-state, and get_wallet_summary interleaved with a "
-            "committing writer (WAL) must return the pre- or post-state summary. Enumeration is over sampled positions of sampled pairs, not all of them."),
+            "committing writer (WAL) must return the pre- or post-state summary. The same procedure covers the SQLite pool-migration store (replace/update/cancel/"
+            "store-proved/take-for-broadcast with one real Orchard proof, advance_migration, and the wallet's truncations on states holding migrations; failed write "
+            "statements as a second fault kind) and the migration oracle's multi-statement reads interleaved with committing writers. Enumeration is over sampled "
+            "positions of sampled pairs, not all of them."),
       note="Trusted: SQLite's own atomic commit below the commit boundary; SQLITE_INTERRUPT as the stand-in for statement-level failure (transaction-control statements are not interrupted half-way); account UUIDs and address row ids are normalised. store_decrypted_tx / store_transactions_to_be_sent / migration-store writes are not yet among the operations.")
 
 claim("C03",
@@ -169,13 +176,18 @@ claim("C13",
             "(Redactor removals; Updater/Signer/low-level-signer/SpendFinalizer additions); all permutations (n<=4) and random bracketings must combine to the harness's "
             "own field-wise union, idempotently, with DataMismatch for any conflicting field in every order. Encodings are fixed points, equal to the original, with v1 "
             "chosen exactly when representable; mutated bytes never panic the parser. The txid implied by the PCZT (computed independently from the builder's parts) is "
-            "unchanged across 3-12 roles in generated order; thorough adds real proving + extraction."),
+            "unchanged across 3-12 roles in generated order; thorough adds real proving + extraction. combine-structure: copies that are prefixes of one transaction "
+            "(a harness Constructor working through the wire format), signed with all six transparent sighash types, IO-finalised, redacted; flags must follow the "
+            "documented rule after every role, combine must fail exactly when a frozen copy would have to grow or a field carries two values, in every order and "
+            "bracketing, and every carried signature must verify under the combined transaction."),
       note="Trusted: builder parts as ground truth for effects; OsRng-produced signature bytes do not affect verdicts. Proof-field merging is only exercised in the thorough prove-extract sub-check.")
 
 claim("C14",
       technique="proptest with a predictive reference model (acceptance, version, padded shape, ZIP 317 fee in u128, failure reasons) solved to land 0/+-1 zat from balance; decryption and secp256k1 verification of results",
       text=("Generated requests over transparent/Sapling/Orchard/Ironwood inputs and outputs, heights across every upgrade boundary, padding variants, proposed versions "
-            "and three fee-rule kinds go through Builder::build (mock provers) and build_for_pczt (thorough: real Orchard/Ironwood proofs). Success must contain exactly the "
+            "and three fee-rule kinds go through Builder::build (mock provers), build_for_pczt and DeferredPcztBuilder (thorough: real Orchard/Ironwood proofs); transparent "
+            "inputs are P2PKH or m-of-n P2SH multisig (1<=m<=n, up to 15 keys, any signing-set order, missing keys, non-multisig redeem scripts) in every transaction version, "
+            "with every library sighash compared with an independent ZIP 143/243/244 reference. Success must contain exactly the "
             "requested spends/outputs plus prescribed zero-valued padding, pay exactly the reference fee of the observed shape, let every recipient decrypt value and memo in "
             "the right pool's domain, and carry transparent signatures that verify against signature_hash and the coin's script. Failure must be explained by a predicted "
             "documented reason with the exact amount; success under any such reason is a violation."),
